@@ -66,8 +66,9 @@ type lcMon struct {
 	// waitFor[name]: the host is waiting to see this user method in progress;
 	// the method does not return before the host has seen it (user code may
 	// take arbitrarily long - this positions the default schedule inside it)
-	waitFor map[string]bool
-	updates []uint64 // indexes handed to Update, in order
+	waitFor   map[string]bool
+	slowClose bool
+	updates   []uint64 // indexes handed to Update, in order
 	// after a restart: the user entries above the snapshot the state machine was
 	// rebuilt from, which must be delivered again first, in order, exactly once
 	replay []uint64
@@ -111,6 +112,9 @@ func (m *lcMon) call(name string) func() {
 	vsched.Yield()
 	if m.waitFor[name] {
 		vsched.WaitUntil(func() bool { return !m.waitFor[name] }, "user "+name+" held until the host has seen it")
+	}
+	if name == "Close" && m.slowClose {
+		vsched.Await(func() bool { return vsched.Quiescent() }, "slow user Close")
 	}
 	return func() {
 		vsched.Yield()
@@ -262,6 +266,8 @@ type lcScenario struct {
 	Host   []string `json:"host"`
 	Reader int      `json:"reader"`
 	Notify bool     `json:"notify_commit"`
+	// SlowClose: the user's Close returns only once nothing else can run
+	SlowClose bool `json:"slow_close,omitempty"`
 }
 
 type lcReq struct {
@@ -342,6 +348,7 @@ func lcNewWorld(sc *lcScenario, r *vsched.Run) *lcWorld {
 	vtime.Reset()
 	nxResetRandom()
 	w := &lcWorld{sc: sc, mon: newLcMon(sc.Kind), ldr: &lcLoader{}, fs: vfs.NewMemFS(), db: memlogdb.New()}
+	w.mon.slowClose = sc.SlowClose
 	pool := &sync.Pool{}
 	pool.New = func() interface{} {
 		obj := &RequestState{}
@@ -704,6 +711,10 @@ func lcScenarios(thorough bool) []lcScenario {
 		add(kind, true, "R X C", 0)
 		add(kind, false, "R X C", 0)
 		add(kind, false, "R i X C", 0)
+		// stop right after start with a slow user Close: the close pool sees the
+		// node again when a worker that loaded it late drops its reference
+		out = append(out, lcScenario{Name: kind + "/cold-slowclose/R X C", Kind: kind, Host: []string{"R", "X", "C"}, SlowClose: true})
+		out = append(out, lcScenario{Name: kind + "/warm-slowclose/R X C", Kind: kind, Warm: true, Host: []string{"R", "X", "C"}, SlowClose: true})
 		// second incarnation: rebuilt from the snapshot + the entries above it
 		addX(kind, "R i X C", true, false)
 		addX(kind, "R X C", true, false)
@@ -833,6 +844,9 @@ func TestVerifC11Lifecycle(t *testing.T) {
 			if strings.HasPrefix(op, "w") && (run.Thorough() || lcQuickDeep[sc.Name]) {
 				scBound = bound
 			}
+		}
+		if sc.SlowClose {
+			scBound = bound
 		}
 		if os.Getenv("VERIF_LC_BOUND") != "" {
 			scBound = bound
